@@ -223,7 +223,7 @@ type Event struct {
 func New(id int, dir string, seed int64) *WW {
 	return &WW{ID: id, Dir: dir, Net: lnmodel.NewNetwork(), Mints: map[string]*MintSite{}, Wallets: map[string]*WalletSite{},
 		dleqSeen: map[string]bool{}, Tokens: map[string]*TokenRec{}, secIDs: map[string]string{}, knownR: map[string]string{}, byB: map[string]derived{},
-		MintedIn: map[string]uint64{}, MeltedOut: map[string]uint64{}, Retired: map[string]uint64{}, melts: map[string]*meltRec{}, DeriveUpTo: 160, Seed: seed,
+		MintedIn: map[string]uint64{}, MeltedOut: map[string]uint64{}, Retired: map[string]uint64{}, melts: map[string]*meltRec{}, DeriveUpTo: 320, Seed: seed,
 		OpTimeout: 60 * time.Second}
 }
 
